@@ -54,6 +54,7 @@ type Op struct {
 }
 
 type Case struct {
+	ErrStyle string `json:"err_style,omitempty"` // how the storage words its own refusals (vkit.Store.refuse)
 	Conf           string       `json:"conf"`                      // auth method of the confidential client
 	SignAlg        string       `json:"sign_alg"`                  // RS256 | ES256
 	Clients        [3]ClientCfg `json:"clients"`                   // conf, pub, pkj
@@ -142,6 +143,15 @@ func genRefresh(t *rapid.T, label string) Op {
 }
 
 func genCase(t *rapid.T) Case {
+	c := genCase0(t)
+	// drawn last so that the rest of the case does not depend on it
+	if rapid.Bool().Draw(t, "errstyled") {
+		c.ErrStyle = rapid.SampledFrom(vkit.ErrStyles).Draw(t, "errstyle")
+	}
+	return c
+}
+
+func genCase0(t *rapid.T) Case {
 	var c Case
 	c.Conf = rapid.SampledFrom([]string{"client_secret_basic", "client_secret_post"}).Draw(t, "conf")
 	c.SignAlg = rapid.SampledFrom([]string{"ES256", "ES256", "RS256"}).Draw(t, "signalg")
@@ -337,7 +347,7 @@ func newWorld(c Case, res *vkit.Result) *world {
 	if c.SignAlg == "RS256" {
 		sk = vkit.SignKeySpec{KeyName: "rsa1", Alg: "RS256", KID: "sig-rs"}
 	}
-	pol := vkit.StorePolicy{NarrowPersists: c.NarrowPersists}
+	pol := vkit.StorePolicy{NarrowPersists: c.NarrowPersists, ErrStyle: c.ErrStyle}
 	if c.ExtraAud {
 		pol.ExtraAudience = []string{"https://api.example.com"}
 	}
